@@ -21,6 +21,10 @@ CHECKS = {
     text="Kernel-checked theorem overlap_iff over the Lean model of non_terminal_leaves: for every list of well-formed kept paths in every order, something is reported iff one path is a strict segment-wise prefix of another (order_irrelevant as corollary). Exact-result correspondence on thousands of path lists. Cycle, nested-eval and no-effect clauses are decided end to end on the real code (programs: path sets x orders x placements; cycles of length 1..4 through call/keep/reference/method edges; nested eval at depth 1..4): error code, empty execution log, store unchanged.",
     note="proof covers the overlap clause; the cycle / nested-eval / no-effect clauses are checked by an implementation oracle over generated programs until the analysis pass is in the Lean model (partial); root path '/' excluded; correspondence sampled",
     technique="Lean 4 proof (induction on recursion depth of non_terminal_leaves, prefix characterisation) + differential correspondence + end-to-end oracle on generated programs"),
+ "C12": dict(
+    text="Kernel-checked refinement theorem: for EVERY wrapped store that behaves like the dictionary specification, every capacity and every operation sequence (absent keys, None blobs, re-stored keys), LRUCacheStore's answers equal the dictionary's (transparent), the wrapper itself refines the dictionary (so wrappers compose with the store refinements of C08), and the cache never exceeds its capacity in any reachable state (bounded); table theorems for set_store(cache_objects). Lock-step correspondence: bare store vs real wrapper vs Lean dictionary vs Lean wrapper, plus cache sizes and live-object counts through weak references.",
+    note="values are opaque objects compared by equality; inner stores memory and local in the correspondence; correspondence sampled",
+    technique="Lean 4 proof (simulation/refinement with an inductive invariant over operation sequences) + lock-step differential correspondence"),
 }
 NOT_YET = "check not built yet in this round (work in progress, see DESIGN.md §10)"
 
